@@ -142,6 +142,7 @@ def cases(draw: T.Any) -> dict:
         'gen': draw(args_list(hi=4)),
         'test': draw(args_list(newline=True)),
         'test_env': draw(st.lists(arg_text(True), min_size=1, max_size=3)),
+        'test2': draw(args_list(newline=True, hi=3)),
         'c_args': draw(args_list(hi=4)),
         'c_defs': draw(args_list(hi=3)),
         'link_args': draw(args_list(hi=3)),
@@ -229,6 +230,11 @@ def build_files(c: dict, logdir: str) -> T.Dict[str, T.Union[str, bytes]]:
     lines.append(f"executable('e', 'main.c', {proc}, c_args: [{mlist(ca['c_args'] + [t for pr in twotok_pairs(c)['c_args'] for t in pr])}], link_args: [{mlist(ca['link_args'])}])")
     tenv = ', '.join(f"'VERIF_E{i}': {mq(v)}" for i, v in enumerate(c['test_env']))
     lines.append(f"test('t', dump, args: ['--log', {L}, '--id', 'test', '--', {mlist(c['test'])}], env: {{{tenv}}})")
+    if 'test2' in c:
+        # a second test, and a test setup with an exe_wrapper: the same two tests are run again under `--setup wrapped`
+        # and under `--wrapper`, where each must still receive exactly its own arguments
+        lines.append(f"test('t2', dump, args: ['--log', {L}, '--id', 'test2', '--', {mlist(c['test2'])}])")
+        lines.append("add_test_setup('wrapped', exe_wrapper: [find_program('env'), 'VERIF_EW=in setup'])")
     return {'meson.build': '\n'.join(lines) + '\n', 'dump.py': DUMP_PY, 'main.c': 'int main(void) { return 0; }\n', 'gin.txt': 'x\n',
             'blsrc.c': 'int bl(void) { return 0; }\n',
             'feed.bin': b'feed\r\n\x00\xff line2\n'}
@@ -531,6 +537,23 @@ def check_case(c: dict, workdir: str, ev: T.Optional[Evidence], confirm_sub: boo
         if recs[0]['env'] != wantenv:
             return Failure('test/env-differs', c, f'test(): env differs\n expected {wantenv!r}\n received {recs[0]["env"]!r}')
         pos_results.append(('test', c['test'] + c['test_env']))
+        if 'test2' in c:
+            for mode, extra in (('plain', []), ('setup', ['--setup', 'wrapped']), ('wrapper', ['--wrapper', '/usr/bin/env VERIF_EW=cmdline'])):
+                if mode != 'plain':
+                    shutil.rmtree(os.path.join(logdir), ignore_errors=True)
+                    os.makedirs(logdir)
+                    tr = run_sub(['test', '--no-rebuild', '-C', bld] + extra, timeout=120)
+                for ident, want in (('test', c['test']), ('test2', c['test2'])):
+                    recs = read_records(logdir, ident)
+                    if len(recs) != 1:
+                        return Failure(f'test/{mode}/ran-{len(recs)}-times', c, f'`meson test {" ".join(extra)}` started the program of test {ident!r} '
+                                       f'{len(recs)} times with a usable command line (exit {tr.rc})\n{tr.text[-800:]}')
+                    if recs[0]['argv'] != want:
+                        return Failure(f'test/{mode}/argv-differs', c, f'`meson test {" ".join(extra)}`: argv of {ident!r} differs\n expected {want!r}\n received {recs[0]["argv"]!r}')
+                    if mode != 'plain' and recs[0]['env'].get('VERIF_EW') != ('in setup' if mode == 'setup' else 'cmdline'):
+                        return Failure(f'test/{mode}/wrapper-not-used', c, f'`meson test {" ".join(extra)}`: {ident!r} did not run under the wrapper '
+                                       f'(VERIF_EW={recs[0]["env"].get("VERIF_EW")!r})')
+            pos_results.append(('test/wrapped', c['test'] + c['test2']))
         if ev is not None:
             for pname, lst in pos_results:
                 ev.case((pname, lst), nontrivial=has_meta(lst), cls=pname, sample={'position': pname, 'args': lst})
